@@ -40,6 +40,12 @@ FORMS = {
     "parse": "[parse_date(t), is_valid_date(t), "
              "parse_date(t2, fmt = 'ddMMyyyy'), date(t), string(date(t))]",
     "parse_bad": "[parse_date(t), is_valid_date(t)]",
+    # the fields of a date as the formatting side shows them
+    "fields": "[Date->format_date(d), Date->format_date(d, fmt = 'dd.MM.yy HH-mm-ss'), "
+              "Date->date_year(d), Date->date_month(d), Date->date_day(d), "
+              "Date->date_hour(d), Date->date_minute(d), "
+              "Date->date_second(d), Date->iso_date(d), "
+              "Date->iso_datetime(d)]",
     "date_bad": "do date(t) catch all 'rejected' end",
 }
 _F = {}
@@ -47,7 +53,8 @@ _F = {}
 
 def forms():
     if "f" not in _F:
-        _F["f"] = core.Forms(FORMS, prelude="require Date import [parse_date];")
+        _F["f"] = core.Forms(FORMS, prelude="require Date import [parse_date]; "
+                                           "require Date;")
     return _F["f"]
 
 
@@ -173,6 +180,32 @@ def check_texts(agg, year):
             agg.violation({"law": "text:real-day-is-valid"},
                           {"t": "text", "year": year, "text": t},
                           "the date " + t, core.show_raw(r), size=1)
+    # the formatting side on the days around the turn of the year and the
+    # month ends, at midnight and at a time of day
+    days = set(boundary_days(year))
+    for (m, d) in ((1, 2), (1, 3), (1, 4), (12, 28), (12, 29)):
+        days.add(datetime.date(year, m, d).toordinal())
+    for o in sorted(days):
+        for (hh, mi, ss) in ((0, 0, 0), (13, 7, 9)):
+            dt = mkdate(o).replace(hour=hh, minute=mi, second=ss)
+            y4 = "%04d" % dt.year
+            want = [
+                "%s-%02d-%02d %02d:%02d:%02d" % (y4, dt.month, dt.day, hh,
+                                                 mi, ss),
+                "%02d.%02d.%s %02d-%02d-%02d" % (dt.day, dt.month, y4[2:],
+                                                 hh, mi, ss),
+                dt.year, dt.month, dt.day, hh, mi, ss,
+                "%s-%02d-%02d" % (y4, dt.month, dt.day),
+                "%s-%02d-%02dT%02d:%02d:%02d" % (y4, dt.month, dt.day, hh,
+                                                 mi, ss)]
+            r = f.ev("fields", d=V.ValueDate(dt))
+            agg.count("steps")
+            got = core.from_value(r[1]) if r[0] == "value" else None
+            if not (r[0] == "value" and core.strict_eq(got, want)):
+                agg.violation({"law": "text:fields-of-a-date"},
+                              {"t": "fields", "year": year, "ordinal": o,
+                               "time": [hh, mi, ss]}, want,
+                              core.show_raw(r), size=1)
     leap = year % 4 == 0 and (year % 100 != 0 or year % 400 == 0)
     bad = ["%04d0230" % year, "%04d0431" % year, "%04d1301" % year,
            "%04d0100" % year]
@@ -357,7 +390,7 @@ def explore_seconds(chunk):
 
 def replay(case, verbose=False):
     agg = core.Agg()
-    if case["t"] == "text":
+    if case["t"] in ("text", "fields"):
         a = core.Agg()
         check_texts(a, case["year"])
         if verbose:
